@@ -26,24 +26,32 @@ Qed.
 
 (* ---------------- VBR ---------------- *)
 
-Lemma read_vbr_data : forall w k x pw acc n tl, 0 <= x < 2 ^ Z.of_nat k ->
-  read_vbr_bits w k pw acc n (bits_of k x ++ tl) =
+Definition nzb (x : Z) : bool := negb (x =? 0).
+
+Lemma read_vbr_data : forall w k x first nz pw acc n tl, 0 <= x < 2 ^ Z.of_nat k ->
+  read_vbr_bits w k first nz pw acc n (bits_of k x ++ tl) =
   match tl with
   | [] => None
-  | _ => read_vbr_bits w 0 (pw * 2 ^ Z.of_nat k) (acc + x * pw) (n + Z.of_nat k) tl
+  | _ => read_vbr_bits w 0 first (nz || nzb x) (pw * 2 ^ Z.of_nat k) (acc + x * pw) (n + Z.of_nat k) tl
   end.
 Proof.
-  induction k; intros x pw acc n tl Hx.
+  induction k; intros x first nz pw acc n tl Hx.
   - change (Z.of_nat 0) with 0 in *. rewrite Z.pow_0_r in *. assert (x = 0) by lia. subst x.
-    cbn [bits_of app]. rewrite Z.mul_1_r, Z.add_0_r, Z.add_0_r.
+    cbn [bits_of app]. rewrite Z.mul_1_r, Z.add_0_r, Z.add_0_r. unfold nzb. cbn [Z.eqb negb]. rewrite orb_false_r.
     destruct tl; reflexivity.
   - cbn [bits_of app read_vbr_bits].
     rewrite Nat2Z.inj_succ, Z.pow_succ_r in * by lia.
     rewrite IHk.
     + destruct tl; [reflexivity|].
       f_equal; try lia.
-      rewrite div2_div, odd_mod.
-      pose proof (Z.div_mod x 2 ltac:(lia)). nia.
+      * rewrite <- orb_assoc. f_equal. unfold nzb. rewrite div2_div.
+        pose proof (Z.div_mod x 2 ltac:(lia)) as E. pose proof (Z.mod_pos_bound x 2 ltac:(lia)).
+        destruct (Z.odd x) eqn:O.
+        -- cbn [orb]. destruct (Z.eqb_spec x 0); [subst; discriminate | reflexivity].
+        -- cbn [orb]. rewrite Zmod_odd, O in E.
+           destruct (Z.eqb_spec (x / 2) 0), (Z.eqb_spec x 0); try reflexivity; lia.
+      * rewrite div2_div, odd_mod.
+        pose proof (Z.div_mod x 2 ltac:(lia)). nia.
     + rewrite div2_div. split; [apply Z.div_pos; lia | apply Z.div_lt_upper_bound; lia].
 Qed.
 
@@ -55,40 +63,52 @@ Proof.
   rewrite bits_of_combine by lia. reflexivity.
 Qed.
 
-Lemma enc_vbr_fuel_read : forall fuel w v pw acc n rest, (2 <= w)%nat -> 0 <= v < 2 ^ Z.of_nat fuel ->
-  read_vbr_bits w (w - 1) pw acc n (enc_vbr_fuel fuel w v ++ rest) =
+Lemma pow2_w1 : forall w, (2 <= w)%nat -> 2 <= 2 ^ Z.of_nat (w - 1).
+Proof.
+  intros w Hw. replace (w - 1)%nat with (S (w - 2))%nat by lia.
+  rewrite Nat2Z.inj_succ, Z.pow_succ_r by lia.
+  pose proof (Z.pow_pos_nonneg 2 (Z.of_nat (w - 2)) ltac:(lia) ltac:(lia)). lia.
+Qed.
+
+Lemma enc_vbr_fuel_read : forall fuel w v first pw acc n rest, (2 <= w)%nat -> 0 <= v < 2 ^ Z.of_nat fuel ->
+  first = true \/ 0 < v ->
+  read_vbr_bits w (w - 1) first false pw acc n (enc_vbr_fuel fuel w v ++ rest) =
   Some (acc + v * pw, n + Z.of_nat (length (enc_vbr_fuel fuel w v)), rest).
 Proof.
-  induction fuel; intros w v pw acc n rest Hw Hv.
+  induction fuel; intros w v first pw acc n rest Hw Hv Hfz.
   - change (Z.of_nat 0) with 0 in Hv. rewrite Z.pow_0_r in Hv. assert (v = 0) by lia. subst v.
+    destruct Hfz as [->|?]; [|lia].
     cbn [enc_vbr_fuel]. rewrite bits_of_length.
+    pose proof (pow2_w1 w Hw).
     pose proof (chunk_bits w 0 0 ltac:(lia)) as C. rewrite Z.mul_0_l, Z.add_0_r in C.
-    rewrite C by (split; try lia; apply Z.pow_pos_nonneg; lia).
-    rewrite <- app_assoc. rewrite read_vbr_data by (split; try lia; apply Z.pow_pos_nonneg; lia).
-    cbn [app read_vbr_bits Z.odd]. repeat (f_equal; try lia).
+    rewrite C by lia.
+    rewrite <- app_assoc. rewrite read_vbr_data by lia.
+    cbn [app read_vbr_bits Z.odd orb]. repeat (f_equal; try lia).
   - cbn [enc_vbr_fuel].
     set (m := 2 ^ Z.of_nat (w - 1)).
-    assert (Hm : 2 <= m).
-    { unfold m. replace (w - 1)%nat with (S (w - 2))%nat by lia.
-      rewrite Nat2Z.inj_succ, Z.pow_succ_r by lia.
-      pose proof (Z.pow_pos_nonneg 2 (Z.of_nat (w - 2)) ltac:(lia) ltac:(lia)). lia. }
+    assert (Hm : 2 <= m) by (apply pow2_w1; exact Hw).
     destruct (Z.ltb_spec v m) as [Hlt|Hge].
     + rewrite bits_of_length.
       pose proof (chunk_bits w v 0 ltac:(lia)) as C. rewrite Z.mul_0_l, Z.add_0_r in C.
       rewrite C by (fold m; lia).
       rewrite <- app_assoc. rewrite read_vbr_data by (fold m; lia).
-      cbn [app read_vbr_bits Z.odd]. repeat (f_equal; try lia).
+      cbn [app read_vbr_bits Z.odd orb].
+      assert (Hok : first || nzb v = true).
+      { destruct Hfz as [->|Hp]; [reflexivity|]. unfold nzb. destruct (Z.eqb_spec v 0); [lia|]. apply orb_true_r. }
+      rewrite Hok. repeat (f_equal; try lia).
     + rewrite app_length, bits_of_length.
       pose proof (Z.mod_pos_bound v m ltac:(lia)) as Hmod.
       pose proof (chunk_bits w (v mod m) 1 ltac:(lia)) as C. rewrite Z.mul_1_l in C. fold m in C.
       rewrite C by lia.
       rewrite <- !app_assoc. rewrite read_vbr_data by (fold m; lia).
       cbn [app read_vbr_bits Z.odd]. fold m.
+      assert (Hq : 0 < v / m) by (apply Z.div_str_pos; lia).
       rewrite IHfuel.
       * pose proof (Z.div_mod v m ltac:(lia)). repeat (f_equal; try nia).
       * lia.
       * rewrite Nat2Z.inj_succ, Z.pow_succ_r in Hv by lia.
-        split; [apply Z.div_pos; lia|]. apply Z.div_lt_upper_bound; try lia. nia.
+        split; [lia|]. apply Z.div_lt_upper_bound; try lia. nia.
+      * right. exact Hq.
 Qed.
 
 Lemma enc_vbr_fuel_ok : forall v, 0 <= v -> 0 <= v < 2 ^ Z.of_nat (S (Z.to_nat (Z.log2 v))).
@@ -101,10 +121,10 @@ Proof.
 Qed.
 
 Theorem vbr_roundtrip_bits : forall w v rest, (2 <= w)%nat -> 0 <= v ->
-  read_vbr_bits w (w - 1) 1 0 0 (enc_vbr w v ++ rest) = Some (v, Z.of_nat (length (enc_vbr w v)), rest).
+  read_vbr_bits w (w - 1) true false 1 0 0 (enc_vbr w v ++ rest) = Some (v, Z.of_nat (length (enc_vbr w v)), rest).
 Proof.
   intros w v rest Hw Hv. unfold enc_vbr.
-  rewrite enc_vbr_fuel_read by (try lia; apply enc_vbr_fuel_ok; lia).
+  rewrite enc_vbr_fuel_read by (try lia; try (apply enc_vbr_fuel_ok; lia); left; reflexivity).
   repeat (f_equal; try lia).
 Qed.
 
@@ -114,6 +134,133 @@ Theorem vbr_roundtrip : forall w v p rest, (2 <= w)%nat -> 0 <= v ->
 Proof.
   intros w v p rest Hw Hv. unfold read_vbr. cbn [fst snd].
   rewrite vbr_roundtrip_bits by lia. reflexivity.
+Qed.
+
+(* the encoding does not depend on the fuel once it suffices *)
+Lemma enc_vbr_fuel_indep : forall f1 f2 w v, (2 <= w)%nat ->
+  0 <= v < 2 ^ Z.of_nat f1 -> v < 2 ^ Z.of_nat f2 -> enc_vbr_fuel f1 w v = enc_vbr_fuel f2 w v.
+Proof.
+  induction f1; intros f2 w v Hw H1 H2.
+  - change (Z.of_nat 0) with 0 in H1. rewrite Z.pow_0_r in H1. assert (v = 0) by lia. subst.
+    destruct f2; cbn [enc_vbr_fuel]; [reflexivity|].
+    pose proof (pow2_w1 w Hw). destruct (Z.ltb_spec 0 (2 ^ Z.of_nat (w - 1))); [reflexivity | lia].
+  - destruct f2.
+    + change (Z.of_nat 0) with 0 in H2. rewrite Z.pow_0_r in H2. assert (v = 0) by lia. subst.
+      cbn [enc_vbr_fuel]. pose proof (pow2_w1 w Hw).
+      destruct (Z.ltb_spec 0 (2 ^ Z.of_nat (w - 1))); [reflexivity | lia].
+    + cbn [enc_vbr_fuel].
+      set (m := 2 ^ Z.of_nat (w - 1)).
+      assert (Hm : 2 <= m) by (apply pow2_w1; exact Hw).
+      destruct (Z.ltb_spec v m); [reflexivity|]. f_equal.
+      rewrite Nat2Z.inj_succ, Z.pow_succ_r in * by lia.
+      apply IHf1; try assumption.
+      * split; [apply Z.div_pos; lia|]. apply Z.div_lt_upper_bound; try lia. nia.
+      * apply Z.div_lt_upper_bound; try lia. nia.
+Qed.
+
+Lemma enc_vbr_of_fuel : forall f w v, (2 <= w)%nat -> 0 <= v < 2 ^ Z.of_nat f -> enc_vbr_fuel f w v = enc_vbr w v.
+Proof.
+  intros f w v Hw Hv. unfold enc_vbr. apply enc_vbr_fuel_indep; try assumption. apply enc_vbr_fuel_ok. lia.
+Qed.
+
+(* ---- inversion: what the strict VBR reader accepts is the canonical encoding ---- *)
+
+Lemma read_vbr_data_inv : forall w k first nz pw acc n bs r,
+  read_vbr_bits w k first nz pw acc n bs = Some r ->
+  exists x tl, bs = bits_of k x ++ tl /\ 0 <= x < 2 ^ Z.of_nat k /\ tl <> [] /\
+    read_vbr_bits w 0 first (nz || nzb x) (pw * 2 ^ Z.of_nat k) (acc + x * pw) (n + Z.of_nat k) tl = Some r.
+Proof.
+  induction k; intros first nz pw acc n bs r H.
+  - exists 0, bs. cbn [bits_of app]. change (Z.of_nat 0) with 0. rewrite Z.pow_0_r.
+    split; [reflexivity|]. split; [lia|]. split; [destruct bs; [discriminate | discriminate]|].
+    unfold nzb. cbn [Z.eqb negb]. rewrite orb_false_r, Z.mul_1_r, Z.add_0_r, Z.add_0_r. exact H.
+  - destruct bs as [|b bs]; [discriminate|]. cbn [read_vbr_bits] in H.
+    destruct (IHk _ _ _ _ _ _ _ H) as (x & tl & -> & Hx & Htl & Hr).
+    exists (Z.b2z b + 2 * x), tl.
+    rewrite Nat2Z.inj_succ, Z.pow_succ_r by lia.
+    split; [|split; [destruct b; cbn [Z.b2z]; lia | split; [exact Htl|]]].
+    + cbn [bits_of app]. f_equal; [|f_equal].
+      * rewrite Z.odd_add_mul_2. destruct b; reflexivity.
+      * rewrite div2_div. replace (Z.b2z b + 2 * x) with (x * 2 + Z.b2z b) by lia.
+        rewrite Z.div_add_l by lia. replace (Z.b2z b / 2) with 0 by (destruct b; reflexivity).
+        rewrite Z.add_0_r. reflexivity.
+    + replace (nz || nzb (Z.b2z b + 2 * x)) with (nz || b || nzb x).
+      2:{ rewrite <- orb_assoc. f_equal. unfold nzb.
+          destruct b; cbn [Z.b2z orb].
+          - destruct (Z.eqb_spec (1 + 2 * x) 0); [lia | reflexivity].
+          - destruct (Z.eqb_spec x 0), (Z.eqb_spec (0 + 2 * x) 0); try reflexivity; lia. }
+      replace (pw * (2 * 2 ^ Z.of_nat k)) with (2 * pw * 2 ^ Z.of_nat k) by lia.
+      replace (acc + (Z.b2z b + 2 * x) * pw) with (acc + Z.b2z b * pw + x * (2 * pw)) by lia.
+      replace (n + Z.succ (Z.of_nat k)) with (n + 1 + Z.of_nat k) by lia.
+      exact Hr.
+Qed.
+
+Lemma read_vbr_bits_inv : forall len w bs first pw acc n v' n' rest, (2 <= w)%nat -> (length bs <= len)%nat ->
+  read_vbr_bits w (w - 1) first false pw acc n bs = Some (v', n', rest) ->
+  exists v, 0 <= v /\ (first = true \/ 0 < v) /\ v' = acc + v * pw /\
+            bs = enc_vbr_fuel (S (Z.to_nat (Z.log2 v))) w v ++ rest /\
+            n' = n + Z.of_nat (length (enc_vbr_fuel (S (Z.to_nat (Z.log2 v))) w v)).
+Proof.
+  induction len; intros w bs first pw acc n v' n' rest Hw Hlen H.
+  - destruct bs; [|cbn [length] in Hlen; lia]. destruct (w - 1)%nat; discriminate.
+  - destruct (read_vbr_data_inv _ _ _ _ _ _ _ _ _ H) as (x & tl & -> & Hx & Htl & Hr).
+    cbn [orb] in Hr.
+    set (m := 2 ^ Z.of_nat (w - 1)) in *.
+    assert (Hm : 2 <= m) by (apply pow2_w1; exact Hw).
+    destruct tl as [|b tl]; [congruence|]. cbn [read_vbr_bits] in Hr.
+    destruct b.
+    + (* continuation *)
+      assert (Hl : (length tl <= len)%nat).
+      { rewrite app_length, bits_of_length in Hlen. cbn [length] in Hlen. lia. }
+      destruct (IHlen w tl false _ _ _ _ _ _ Hw Hl Hr) as (q & Hq0 & Hqp & Hv & Htl' & Hn).
+      destruct Hqp as [?|Hqp]; [discriminate|].
+      exists (x + q * m).
+      assert (Hpos : 0 < x + q * m) by nia.
+      split; [lia|]. split; [right; exact Hpos|]. split; [rewrite Hv; fold m; lia|].
+      assert (Hfuel : 0 <= x + q * m < 2 ^ Z.of_nat (S (Z.to_nat (Z.log2 (x + q * m))))) by (apply enc_vbr_fuel_ok; lia).
+      remember (S (Z.to_nat (Z.log2 (x + q * m)))) as F.
+      destruct F as [|F]; [discriminate|].
+      cbn [enc_vbr_fuel]. fold m.
+      destruct (Z.ltb_spec (x + q * m) m) as [?|_]; [nia|].
+      assert (Hdiv : (x + q * m) / m = q) by (rewrite Z.div_add by lia; rewrite Z.div_small by lia; lia).
+      assert (Hmodx : (x + q * m) mod m = x) by (rewrite Z.mod_add by lia; apply Z.mod_small; lia).
+      rewrite Hdiv, Hmodx.
+      assert (Hq : enc_vbr_fuel F w q = enc_vbr_fuel (S (Z.to_nat (Z.log2 q))) w q).
+      { apply enc_vbr_fuel_indep; try assumption.
+        - rewrite Nat2Z.inj_succ, Z.pow_succ_r in Hfuel by lia. split; [lia|]. nia.
+        - apply enc_vbr_fuel_ok. lia. }
+      rewrite Hq.
+      pose proof (chunk_bits w x 1 ltac:(lia)) as C. rewrite Z.mul_1_l in C. fold m in C. rewrite C by lia.
+      split.
+      * rewrite Htl'. rewrite <- !app_assoc. reflexivity.
+      * rewrite Hn. rewrite !app_length, bits_of_length. cbn [length]. lia.
+    + (* last chunk *)
+      destruct (first || nzb x) eqn:Hok; [|discriminate].
+      inversion Hr; subst v' n' rest. clear Hr.
+      exists x. split; [lia|]. split.
+      { destruct first; [left; reflexivity|]. right. cbn [orb] in Hok. unfold nzb in Hok.
+        destruct (Z.eqb_spec x 0); [discriminate | lia]. }
+      split; [reflexivity|].
+      assert (Hfuel : 0 <= x < 2 ^ Z.of_nat (S (Z.to_nat (Z.log2 x)))) by (apply enc_vbr_fuel_ok; lia).
+      remember (S (Z.to_nat (Z.log2 x))) as F.
+      destruct F as [|F]; [discriminate|].
+      cbn [enc_vbr_fuel]. fold m.
+      destruct (Z.ltb_spec x m) as [_|?]; [|lia].
+      pose proof (chunk_bits w x 0 ltac:(lia)) as C. rewrite Z.mul_0_l, Z.add_0_r in C. rewrite C by (fold m; lia).
+      split; [rewrite <- app_assoc; reflexivity|].
+      rewrite app_length, bits_of_length. cbn [length]. lia.
+Qed.
+
+(* what read_vbr accepts is the canonical VBR encoding of the value it returns *)
+Theorem read_vbr_sound : forall w r v r', (2 <= w)%nat -> read_vbr w r = Some (v, r') ->
+  0 <= v /\ snd r = enc_vbr w v ++ snd r' /\ fst r' = fst r + Z.of_nat (length (enc_vbr w v)).
+Proof.
+  intros w [p bs] v [p' rest] Hw H. unfold read_vbr in H. cbn [fst snd] in *.
+  destruct (read_vbr_bits w (w - 1) true false 1 0 0 bs) as [[[v0 n0] bs0]|] eqn:E; [|discriminate].
+  inversion H; subst v0 p' bs0. clear H.
+  destruct (read_vbr_bits_inv (length bs) w bs true 1 0 0 v n0 rest Hw (le_n _) E) as (q & Hq0 & _ & Hv & Hbs & Hn).
+  assert (v = q) by lia. subst q.
+  split; [exact Hq0|]. unfold enc_vbr. split; [exact Hbs | lia].
 Qed.
 
 Lemma enc_vbr_fuel_nonempty : forall fuel w v, (1 <= w)%nat -> (1 <= length (enc_vbr_fuel fuel w v))%nat.
